@@ -207,3 +207,20 @@ def run(m, rep, tier):
         else:
             n5.violation('cstl_slist_concat', 'concat does not add the source count exactly once and then re-initialise the source '
                          '(the source would keep pointing at nodes now owned by the destination)', floc(m, f), {})
+
+    # ---- N9: (function pointer, context) pairing ---------------------------------------------
+    from .util import check_callback_context
+    _cb = rep.rule('N9', 'every call through a caller-supplied function pointer passes the context supplied with it', floor=1)
+    check_callback_context(m, _cb, ('slist.c',))
+
+    # ---- N8: link primitive direction vs. anchors ----------------------------------------
+    n8 = rep.rule('N8', 'push_front / push_back / insert_after pass the anchor after which the link primitive links', floor=3)
+    listrules.check_insert_anchors(m, n8, 'slist', '__cstl_slist_insert_after', 'cstl_slist', 'cstl_slist_node',
+                                   {'cstl_slist_push_front': 'front', 'cstl_slist_push_back': 'back', 'cstl_slist_insert_after': ('after', '$1')},
+                                   nxt='n', prv='__none__', tail='t')
+
+    # ---- N7: swap completeness ------------------------------------------------------------
+    from .util import check_swap_complete
+    _sw = rep.rule('N7', 'swap exchanges every member of the two lists before re-anchoring', floor=1)
+    for _n in ('cstl_slist_swap',):
+        check_swap_complete(m, _n, _sw)
